@@ -69,15 +69,19 @@ func (t *Txn) Commit() error {
 	}
 
 	// TODO: support txn crush recovery (txnEnt and txnFin)
+	// until then a transaction is made atomic across a crash by logging all of its
+	// entries with one wal append into one memtable
 
+	entries := make([]types.Entry, 0, len(t.pendingWrites))
 	for _, v := range t.pendingWrites {
-		t.db.rawset(types.Entry{
+		entries = append(entries, types.Entry{
 			Key:       types.KeyWithTs(v.Key, commitTs),
 			Value:     v.Value,
 			Tombstone: v.Tombstone,
 			Version:   int64(commitTs),
 		})
 	}
+	t.db.rawsetBatch(entries)
 
 	orc.doneCommit(commitTs)
 
